@@ -13,7 +13,7 @@ from rules.common import S, enum_paths, find_calls
 EXPLANATION = (
     "Decides: (1) every MatchingMethod.is_better_than is, on the path with a score, one strict comparison of the score with the "
     "threshold, `<` for the two distance modes and `>` for the two IoU modes, and False without a score (R-CMPDIR) – so each decision is "
-    "monotone in the threshold in the direction 'looser'; (2) polarity of is_result_correct: over its complete path table, for an "
+    "monotone in the threshold in the direction 'looser'; the bound compared with the score is the threshold parameter itself on every path a threshold of the valid range ([0, 1] for IoU, >= 0 for distances) can take (interval reasoning over the decided comparisons with constants; a rescaled threshold is reported); Ap._calculate_tp_fp stores a TP / FP mark only after is_result_correct was asked (rule shared with C04); (2) polarity of is_result_correct: over its complete path table, for an "
     "ordinary (non FP-labelled) ground truth the value with `is_better_than` true is >= the value with it false for every valuation of "
     "the other atoms, and the threshold flows nowhere except into that one is_better_than call and a None test; (3) get_positive_objects "
     "puts a result into the TP list exactly on the rows where is_result_correct holds (shared with C03). Hence TP(t) is a subset of "
